@@ -155,7 +155,7 @@ fn handle<BIn>(req: &mut Request<BIn>) -> Option<ValidateSNIError> {
     {
         if let Some(host) = host {
             span.record("host", host.to_string());
-            if host.host() != sni.host() {
+            if !host.host().eq_ignore_ascii_case(sni.host()) {
                 tracing::warn!(header=%host, expected=%sni, "Rejecting request with mismatched SNI and Host");
                 return Some(ValidateSNIError::InvalidSNI {
                     host: host.to_string(),
